@@ -314,7 +314,7 @@ PROPS = {
                            T: ["format:bool/set", "format:float/set", "format:string/set", "format:tlv8/set", "format:uint8/put", "format:string/put", "missing-id", "write-only-id", "repeated-id", "accessories", "multi-frame-response", "response>100k", "accessories=120"]},
         jobs=[
             dict(test="TestC09Prop", kind="rapid", checks={Q: 60, T: 2500}, shards=14),
-            dict(test="TestC09Concurrent", kind="plain", shards={Q: 2, T: 8}, env={"VERIF_C09_REPS": {Q: 2, T: 12}}),
+            dict(test="TestC09Concurrent", kind="plain", shards={Q: 4, T: 8}, env={"VERIF_C09_REPS": {Q: 4, T: 12}}),
         ],
     ),
     "C10": dict(
